@@ -23,25 +23,42 @@ class _Attr:
         raise core.Unsupported(f"shapely model: attribute {name}")
 
 
-def _mk(S, poly):
-    """a ShapelyPolygon / ShapelyBoundary pair around the polygon model: the shapely-specific parts of the constructors
-    (vertex handling, outline, normals) are skipped, the base-class constructors Domain.__init__ /
-    BoundaryDomain.__init__ are the real ones"""
-    dom = S.I.new_without_init(S.find(SP))
-    S.call(S.getattr(S.find("torchphysics.problem.domains.domain.Domain"), "__init__"), dom, S.new(R2, "x"), 2)
-    dom.f["polygon"] = poly
-    dom.f["necessary_variables"] = set()
+def _shapely_stub(S):
+    """model of the part of shapely the constructors touch: shapely.geometry.Polygon (a class), polygon.orient (keeps
+    area, lengths and bounds -- it only reorders the vertices), exterior / interior rings (the scenarios below use
+    polygons whose ring coordinates are never read: the outline / normal table of the boundary object is abstract)"""
+    from tpv.interp import StubModule, Builtin
+    from tpv.loader import NativeClass
+
+    Poly = NativeClass("shapely.geometry.Polygon")
+    geo = StubModule("shapely.geometry", {"Polygon": Poly, "polygon": StubModule("shapely.geometry.polygon", {"orient": Builtin("orient", lambda I, p, *a, **k: p)})})
+    S.I.repo.externals["shapely"] = StubModule("shapely", {"geometry": geo, "ops": StubModule("shapely.ops", {})})
+    return Poly
+
+
+def _polygon(S, Poly, **attrs):
+    p = S.I.new_without_init(Poly)
+    p.f.update(attrs)
+    return p
+
+
+def _mk(S, poly_attrs):
+    """a ShapelyPolygon built by its REAL constructor around the polygon model, and its boundary object: the
+    shapely-specific part of ShapelyBoundary.__init__ (outline, normal table) is skipped, BoundaryDomain.__init__ is the
+    real one"""
+    Poly = _shapely_stub(S)
+    poly = _polygon(S, Poly, **poly_attrs)
+    dom = S.new(SP, S.new(R2, "x"), shapely_polygon=poly)
     bd = S.I.new_without_init(S.find(SB))
     S.call(S.getattr(S.find("torchphysics.problem.domains.domain.BoundaryDomain"), "__init__"), bd, dom)
     return dom, bd
 
 
-@scenario("C10", [SP + "._get_volume", SB + "._get_volume"], configs=["polygon-with-holes"])
+@scenario("C10", [SP + "._get_volume", SB + "._get_volume", SP + ".__init__"], configs=["polygon-with-holes"])
 def shapely_measures_are_the_area_and_the_length_of_all_rings(S):
     area, lall, lext = S.real("area"), S.real("length_of_all_rings"), S.real("length_of_the_outer_ring")
     S.assume(z3.And(area.t > 0, lext.t > 0, lext.t < lall.t))
-    poly = _Attr(area=area, boundary=_Attr(length=lall), exterior=_Attr(length=lext))
-    dom, bd = _mk(S, poly)
+    dom, bd = _mk(S, dict(area=area, boundary=_Attr(length=lall), exterior=_Attr(length=lext)))
     v = S.method(dom, "volume").val
     S.ensure("volume-is-one-number", v.numel_concrete() == 1)
     S.ensure("volume-is-the-polygon-area", zreal(v.at([() for _ in v.shape])) == area.t)
@@ -62,8 +79,7 @@ def shapely_boundary_density_sampling_counts_with_the_boundary_measure(S):
     S.assume(z3.And(area.t > 0, lext.t > 0, lext.t <= lall.t))
     dens = S.real("density")
     S.assume(dens.t > 0)
-    poly = _Attr(area=area, boundary=_Attr(length=lall), exterior=_Attr(length=lext))
-    dom, bd = _mk(S, poly)
+    dom, bd = _mk(S, dict(area=area, boundary=_Attr(length=lall), exterior=_Attr(length=lext)))
     seen = []
 
     def walk(I, fn, args, kwargs):
@@ -83,3 +99,32 @@ def shapely_boundary_density_sampling_counts_with_the_boundary_measure(S):
     if isinstance(lp, Tensor) and lp.val.rank == 1:
         S.ensure("one-position-per-point", lp.val.shape[0].size_term() == zint(n))
         S.forall("positions-lie-on-the-boundary-curve", lp, lambda q: z3.And(zreal(lp.val.at(q)) >= 0, zreal(lp.val.at(q)) <= lall.t), extra_hyps=lambda q: S.instances(lp.val.shape, q))
+
+
+@scenario("C18", [SP + ".bounding_box", SP + ".__init__"], configs=["any-polygon"])
+def shapely_bounding_box_is_the_bounds_of_the_polygon_in_space_order(S):
+    """assumed contract of shapely: polygon.bounds = (minx, miny, maxx, maxy).  post: bounding_box() is
+    [minx, maxx, miny, maxy] (the [min_0, max_0, min_1, max_1] layout every consumer reads).
+    history: asked three times on the same polygon object, each answer is that vector, and an answer handed out
+    earlier is not changed by a later query"""
+    b = [S.real(n) for n in ("minx", "miny", "maxx", "maxy")]
+    S.assume(z3.And(b[0].t < b[2].t, b[1].t < b[3].t))
+    dom, bd = _mk(S, dict(bounds=tuple(b), area=S.real("area")))
+    want = [b[0].t, b[2].t, b[1].t, b[3].t]
+    boxes = []
+    for k in range(3):
+        box = S.method(dom, "bounding_box")
+        v = box.val
+        ok = v.rank == 1 and v.shape[0].concrete() == 4
+        S.ensure(f"query-{k + 1}:flat-vector-of-4", ok)
+        if not ok:
+            return
+        S.ensure(f"query-{k + 1}:min0-max0-min1-max1", z3.And([zreal(v.at([(j,)])) == want[j] for j in range(4)]))
+        boxes.append(box)
+    for k, box in enumerate(boxes[:-1]):
+        v = box.val
+        S.ensure(f"answer-{k + 1}-unchanged-by-later-queries", z3.And([zreal(v.at([(j,)])) == want[j] for j in range(4)]))
+    bb = S.method(bd, "bounding_box").val
+    S.ensure("boundary-box-is-the-same-vector", bb.rank == 1 and bb.shape[0].concrete() == 4 and True)
+    if bb.rank == 1 and bb.shape[0].concrete() == 4:
+        S.ensure("boundary-box-values", z3.And([zreal(bb.at([(j,)])) == want[j] for j in range(4)]))
